@@ -172,9 +172,32 @@ def helper_symbolic(cfg) -> Dict[str, Any]:
 
 
 def helper_concrete(cfg, p: int) -> List[str]:
-    """The definition on real float64 arrays with real NumPy."""
+    """The definition on real float64 arrays with real NumPy: on ordinary positive data and on data with the values where
+    the functions involved are special (exact zeros of either sign, negatives, infinities, NaN, denormals)."""
+    n = cfg['n']
+    datasets = [[1.5 + 0.75 * i * i for i in range(n)]]
+    special = [0.0, 2.0, -0.0, 3.5, -1.0, float('inf'), 5e-324, float('nan'), 1e308, 0.25, 0.0]
+    for shift in range(3):
+        datasets.append([special[(i + 4 * shift) % len(special)] for i in range(n)])
+    for data in datasets:
+        with np.errstate(all='ignore'), warnings.catch_warnings():
+            warnings.simplefilter('ignore')
+            bad = _helper_concrete(cfg, p, data)
+        if bad:
+            return bad
+    return []
+
+
+def _same_value(a, b) -> bool:
+    a, b = float(a), float(b)
+    if a != a or b != b:
+        return a != a and b != b
+    return a == b
+
+
+def _helper_concrete(cfg, p: int, data) -> List[str]:
     n, fn = cfg['n'], cfg['fn']
-    x = np.array([1.5 + 0.75 * i * i for i in range(n)])
+    x = np.array(data, dtype=float)
     x0 = x.copy()
     fill = -99.0
     bad = []
@@ -198,9 +221,9 @@ def helper_concrete(cfg, p: int) -> List[str]:
             want = src[i] if p == 0 else (src[i] - src[k] if 0 <= k < n else fill)
         if cfg.get('twin') == 'off_by_one' and i == n - 1 and p == 1:
             want = fill
-        if not (res[i] == want):
-            bad.append(f'{fn}(x, {p})[{i}] = {res[i]!r}, definition gives {want!r}')
-    if not np.array_equal(x, x0):
+        if not _same_value(res[i], want):
+            bad.append(f'{fn}(x, {p})[{i}] = {res[i]!r}, definition gives {want!r} (x = {list(x0)})')
+    if not np.array_equal(x, x0, equal_nan=True):
         bad.append(f'{fn} modified its input')
     return bad
 
@@ -243,7 +266,48 @@ def _exprs(n: int, labels_txt: List[str]):
     return E
 
 
+def typed_eval_scenario(cfg) -> List[str]:
+    """eval() binds every name to ITS OWN series: dtypes are not unified across variables, and a model's status and
+    iterations are names like any other (concrete assertions)."""
+    import fsic
+    n = cfg['n']
+    bad: List[str] = []
+    span = list(range(2000, 2000 + n))
+    if cfg['span'] == 'model':
+        class M(fsic.BaseModel):
+            ENDOGENOUS = ['X']
+            EXOGENOUS = ['W']
+            NAMES = ENDOGENOUS + EXOGENOUS
+            CHECK = ENDOGENOUS
+        c = M(span, X=1.5, W=2.0)
+        c.iterations[:] = np.arange(n)
+    else:
+        c = VectorContainer(span)
+        c.add_variable('X', [0.5 + j for j in range(n)], dtype=float)
+        c.add_variable('W', 2.0, dtype=float)
+    c.add_variable('K', [2 ** 53 + 1 + j for j in range(n)], dtype=int)
+    c.add_variable('B', [j % 2 == 0 for j in range(n)], dtype=bool)
+    c.add_variable('S', ['s%d' % j for j in range(n)], dtype='<U4')
+    for name in list(c.index):
+        r = _run(lambda: c.eval(name))
+        series = c[name]
+        if r[0] != 'ret' or not isinstance(r[1], np.ndarray) or r[1].dtype != series.dtype or not np.array_equal(r[1], series):
+            bad.append(f'eval({name!r}) is not the series {name} ({series.dtype}): {r[1].dtype if r[0] == "ret" and hasattr(r[1], "dtype") else r[:2]}')
+    checks = [('K + 1', lambda: c['K'] + 1), ('K & 1', lambda: c['K'] & 1), ('X[B]', lambda: c['X'][c['B']]), ('X * W + K', lambda: c['X'] * c['W'] + c['K']),
+              ('~B', lambda: ~c['B'])]
+    if cfg['span'] == 'model':
+        checks += [('iterations + 1', lambda: c['iterations'] + 1), ("status == '-'", lambda: c['status'] == '-')]
+    for text, want in checks:
+        r = _run(lambda: c.eval(text))
+        w = want()
+        if r[0] != 'ret' or not isinstance(r[1], np.ndarray) or r[1].dtype != w.dtype or not np.array_equal(r[1], w):
+            bad.append(f'eval({text!r}) differs from the expression on the series themselves: {r[:2] if r[0] == "exc" else r[1]!r} vs {w!r}')
+    return bad
+
+
 def eval_scenario(cfg, src, symbolic: bool) -> List[str]:
+    if cfg.get('typed'):
+        return typed_eval_scenario(cfg)
     n = cfg['n']
     kind = cfg['span']
     if kind == 'list_sym':
@@ -430,6 +494,9 @@ def configs(tier: str):
             if span == 'list_sym_neg' and n > 3 and tier == 'quick':
                 continue
             out.append(cfg16(part='eval', span=span, n=n))
+    for kind in ('container', 'model'):
+        for n in (1, 2, 3):
+            out.append(cfg16(part='eval', span=kind, n=n, typed=True))
     for stage in ('rebind', 'copy', 'grown'):
         for span in ('list_sym', 'range', 'list_str', 'nd_int', 'range_neg'):
             for n in (1, 2, 3) if tier == 'quick' else (1, 2, 3, 4, 5):
